@@ -20,6 +20,17 @@ CHECKS = {
              "g++/ASan/UBSan; harness c15_rs.cpp and checks/c15.py",
         technique="Lean 4 proof over an executable model + exhaustive/boundary differential correspondence",
         design="§5 C15"),
+    "C20": dict(
+        text="Lean 4 theorems for every path string and base: whatever PathCat forwards is base++path and its component walk never "
+             "goes above the base (no escape); every path whose prefixes all stay inside and that fits the buffer is forwarded (legal "
+             "accepted); the forwarded path's lexical resolution keeps the base's directory stack as its bottom; rejected = escaping or "
+             "over-long. The model of Path::iterator / level_valid / PathCat is tied to the code by running all 34 path operands of the "
+             "real SubFileSystem over a recording filesystem on every string over {/ . a} up to length 10 (88 573) and other families, "
+             "and diffing with the compiled model; an independent lexical oracle supplies failing inputs",
+        note="trusted: Lean kernel + 3 standard axioms; paths are C strings without NUL and without spaces in the harness protocol; "
+             "symlink()'s first argument is link content, not a path operand (outside); libphoton built from the working tree",
+        technique="Lean 4 proof over an executable model + exhaustive differential correspondence through every operation",
+        design="§5 C20"),
 }
 
 NA_REASON = "not claimed yet in this round: model/theorems/harness for this property are still to be built (DESIGN.md §10 order); no check is registered rather than a weaker technique substituted"
